@@ -286,6 +286,35 @@ class Analysis:
         memo[func] = out
         return out
 
+    # ----------------------------------------------------------- tables
+    def tables_in(self, func):
+        """Folded dict values a function uses: inline dict displays /
+        comprehensions and names or attributes (module constant, class
+        attribute, self.<class attribute>) that fold to a dict.
+        -> [(dict value, ast node)]"""
+        out = []
+        seen = set()
+        for n in walk_own(func.node):
+            cand = None
+            if isinstance(n, (ast.Dict, ast.DictComp)):
+                cand = n
+            elif isinstance(n, (ast.Name, ast.Attribute)) and \
+                    isinstance(getattr(n, 'ctx', None), ast.Load):
+                cand = n
+            if cand is None:
+                continue
+            key = norm(cand)
+            if key in seen:
+                continue
+            try:
+                v = self.fold(cand, func)
+            except K.Unfoldable:
+                continue
+            if isinstance(v, dict) and v:
+                seen.add(key)
+                out.append((v, cand))
+        return out
+
     # ------------------------------------------------------ path helpers
     def emit_nodes(self, func, opname):
         """CFG nodes of func that directly emit op-code `opname`."""
